@@ -399,6 +399,7 @@ theorem release_ok (g g' : G) (n : Nat) (r : Rel) (h : NodesOK g) (hr : (Ext.rel
       cases r with
       | same => simp [Ext.fresh] at hr
       | sames k => simp [Ext.fresh] at hr
+      | mixed vs => simp [Ext.fresh] at hr
       | out v =>
         simp only at hs
         cases hst : Node.step nd (.finish i (.outs [some { id := (clearObs g).next, pay := v }])) with
